@@ -23,6 +23,10 @@ pub struct Case {
     pub pick_seed: u64,
     /// how many (point, occurrence) pairs to kill at (0 = all)
     pub max_kills: usize,
+    /// the restarted logger logs a single record only (no rotation after the restart, so that
+    /// the state right after its initialisation is what gets observed)
+    #[serde(default)]
+    pub restart_short: bool,
 }
 
 #[derive(Clone, Debug, Serialize, Deserialize)]
@@ -48,7 +52,7 @@ pub struct P;
 struct DumpOnFail(String, std::cell::Cell<bool>);
 impl Drop for DumpOnFail {
     fn drop(&mut self) {
-        if self.1.get() && std::env::var("FLV_DEBUG").is_ok() {
+        if (self.1.get() && std::env::var("FLV_DEBUG").is_ok()) || std::env::var("FLV_DEBUG_ALL").is_ok() {
             eprintln!("{}", self.0);
         }
     }
@@ -89,7 +93,7 @@ pub fn child_main(file: &Path) -> ! {
             // one day (and 5 s) after the end of the killed run's virtual time
             let advanced: i64 = case.ops.iter().map(|o| if let Op::Advance(ms) = o { *ms } else { 0 }).sum();
             hh.set_time(Some(case.t0.to_ns() + (advanced + 86_400_000 + 5_000) * MS));
-            (*append, *first_q, vec![Op::Write(9), Op::Write(10), Op::Rotate, Op::Write(11)])
+            (*append, *first_q, if case.restart_short { vec![Op::Write(9)] } else { vec![Op::Write(9), Op::Write(10), Op::Rotate, Op::Write(11)] })
         }
     };
     let sess = match Sess::start(&case.cfg, &job.dir, append, Some(&job.err), case.cfg.symlink.then_some(job.link.as_path())) {
@@ -206,8 +210,8 @@ impl Property for P {
     fn strategy(tier: Tier) -> BoxedStrategy<Case> {
         let modes = Just(Mode::Direct).boxed();
         let max_kills = if tier == Tier::Thorough { 60 } else { 40 };
-        (crate::mr::rot_cfg_strat(crate::mr::cleanup_strat(), modes), vinst_strat(), any::<bool>(), any::<bool>(), any::<bool>(), any::<u64>())
-            .prop_flat_map(move |(mut cfg, t0, bg, symlink, restart_append, pick_seed)| {
+        (crate::mr::rot_cfg_strat(crate::mr::cleanup_strat(), modes), vinst_strat(), any::<bool>(), any::<bool>(), any::<bool>(), any::<u64>(), any::<bool>())
+            .prop_flat_map(move |(mut cfg, t0, bg, symlink, restart_append, pick_seed, restart_short)| {
                 cfg.utc = false;
                 cfg.via_logger = false;
                 cfg.bg_cleanup = bg;
@@ -222,9 +226,9 @@ impl Property for P {
                     r.crit = fix_crit(r.crit, &r.nam);
                 }
                 let ops = prop::collection::vec(prop_oneof![6 => (8usize..30).prop_map(Op::Write), 2 => Just(Op::Rotate), 1 => Just(Op::Advance(1000)), 1 => Just(Op::Advance(86_400_000))], 8..30);
-                (Just(cfg), Just(t0), ops, Just(restart_append), Just(pick_seed))
+                (Just(cfg), Just(t0), ops, Just(restart_append), Just(pick_seed), Just(restart_short))
             })
-            .prop_map(move |(cfg, t0, ops, restart_append, pick_seed)| Case { tz: crate::vtime::tz_name(), cfg, t0, ops, restart_append, pick_seed, max_kills })
+            .prop_map(move |(cfg, t0, ops, restart_append, pick_seed, restart_short)| Case { tz: crate::vtime::tz_name(), cfg, t0, ops, restart_append, pick_seed, max_kills, restart_short })
             .boxed()
     }
 
@@ -424,8 +428,9 @@ impl Property for P {
                 break;
             }
             // the new records are all there (the newest ones, so no limit removes the last)
-            if fin.records.last() != Some(&(next_q + 2)) {
-                out.set_fail(format!("after-restart:new-records-missing@{point}"), format!("{what}: records after restart {:?}, expected to end with {}", fin.records, next_q + 2));
+            let last_new = if case.restart_short { next_q } else { next_q + 2 };
+            if fin.records.last() != Some(&last_new) {
+                out.set_fail(format!("after-restart:new-records-missing@{point}"), format!("{what}: records after restart {:?}, expected to end with {}", fin.records, last_new));
                 dump.1.set(true);
                 break;
             }
@@ -437,6 +442,31 @@ impl Property for P {
                 out.set_fail(
                     format!("restart-destroyed-earlier-records@{point}"),
                     format!("{what}: records {:?} were in the files after the kill but are gone after the restart (restart append={}); after kill {:?}, after restart {:?}; files {:?}", recs.iter().filter(|r| !fin.records.contains(r)).collect::<Vec<_>>(), case.restart_append, recs, fin.records, fin.fam.iter().map(|f| format!("{}[{}B]", f.name, f.content.len())).collect::<Vec<_>>()),
+                );
+                dump.1.set(true);
+                break;
+            }
+            // compression across the restart is lossless: a file that was plain after the kill and
+            // is compressed after the restart holds exactly the same bytes (an incomplete .gz left
+            // by the kill must not replace its original)
+            let mut bad_gz = None;
+            for f in &after_kill.fam {
+                if f.parsed.gz || f.content.is_empty() {
+                    continue;
+                }
+                if let Some(g) = fin.fam.iter().find(|g| g.parsed.gz && g.name == format!("{}.gz", f.name)) {
+                    // (with append the restarted logger may have appended to the file before it
+                    // was rotated and compressed: then the old bytes are a prefix)
+                    if !g.content.starts_with(&f.content) {
+                        bad_gz = Some((f.name.clone(), f.content.len(), g.content.len()));
+                        break;
+                    }
+                }
+            }
+            if let Some((name, before, after)) = bad_gz {
+                out.set_fail(
+                    format!("restart-keeps-incomplete-gz-instead-of-original@{point}"),
+                    format!("{what}: after the kill {name} held {before} bytes; after the restart {name}.gz decompresses to {after} bytes that are not these (the original is gone)"),
                 );
                 dump.1.set(true);
                 break;
